@@ -662,6 +662,11 @@ def unconditional(n):
             continue
         if k == "if":
             stack.append(x["cond"])
+            # when one branch diverges, completing normally means the other branch was evaluated
+            if x.get("else") is not None and diverges(x["else"]) and not diverges(x["then"]):
+                stack.append(x["then"])
+            elif x.get("else") is not None and diverges(x["then"]) and not diverges(x["else"]):
+                stack.append(x["else"])
             continue
         if k == "match":
             stack.append(x["scrut"])
